@@ -12,13 +12,14 @@ def run(tier, seed, only=None):
     run = Run(ID, tier, seed)
     run.trusted = [T3, T4, T5, T6]
     run.assumptions = [T3, T4, LOGGING, UU.BOUND_NOTE]
-    from .framing_units import framing_units
+    from .framing_units import framing_units, encoder_step_units
     for u in (UU.units((ID, 'C08', 'C09')) + UU.update_units((ID, 'C08', 'C09')) + UU.step_units((ID, 'C09', 'C15')) +
-              framing_units((ID,), strict=True)):
+              framing_units((ID,), strict=True) + encoder_step_units((ID,))):
         if only and u.name not in only:
             continue
         run.run_unit(u, prog)
-        run.vacuity_check(u)
+        if u.kind != 'step':
+            run.vacuity_check(u)
     if not only:
         for lm in UU.lemmas(prog):
             run.run_lemma(lm)
